@@ -184,12 +184,45 @@ def value_programs(tier):
     return P
 
 
+# constants: a cast applied to a literal, and to a constant column created by an earlier verb
+CONSTS = {"cf": -2.75, "cf2": 2.5, "ci": -1, "ci2": 1000000, "cb": True, "csi": "+7", "csf": "-0.25", "cd": "d:2020-01-02",
+          "ct": "t:2020-01-02T03:04:05.000006", "ct2": "t:1999-12-31T23:59:59"}
+CONST_TARGETS = {"cf": ["int64", "int32", "float32", "str"], "cf2": ["int64", "int16", "str"], "ci": ["float64", "str", "int8", "int32"],
+                 "ci2": ["float64", "str", "int32"], "cb": ["int64", "int8"], "csi": ["int64", "int16"], "csf": ["float64", "float32"],
+                 "cd": ["datetime", "str", "date"], "ct": ["date", "str", "datetime"], "ct2": ["date", "str"]}
+CONST_WORLD = {"tables": {"T": {"cols": [["k", "int"], ["a", "int"]], "rows": [[1, 5], [2, None]]}}}
+
+
+def const_alphabet(st, hist):
+    def casts(ref):
+        out = []
+        for n, tgts in CONST_TARGETS.items():
+            for t in tgts:
+                out.append(["mutate", [["y", ["cast", ref(n), t]]]])
+        out.append(["mutate", [["y", ["cast", ["cast", ref("ct"), "date"], "str"]]]])
+        out.append(["mutate", [["y", ["cast", ["cast", ref("cd"), "datetime"], "str"]]]])
+        out.append(["mutate", [["y", ["cast", ["cast", ref("ct"), "date"], "datetime"]]]])
+        out.append(["mutate", [["y", ["dt_year", ["cast", ref("ct2"), "date"]]]]])
+        out.append(["mutate", [["y", ["add", ["cast", ref("cf"), "int64"], A]]]])
+        out.append(["filter", [["eq", ["cast", ref("ct"), "date"], ["cast", ref("cd"), "date"]]]])
+        return out
+    if len(hist) == 1:
+        return [["mutate", [[n, ["lit", v]] for n, v in CONSTS.items()]]] + casts(lambda n: ["lit", CONSTS[n]])
+    if hist[1][1][0][0] == "cf" and len(hist) == 2:
+        return casts(lambda n: ["col", "C", n])
+    return []
+
+
+def const_explorer(world):
+    return X.Explorer(world, alphabet=const_alphabet, checks=[], depth=2, oracle="both", names="list")
+
+
 def make_explorer(world, events):
     return X.Explorer(world, alphabet=lambda st, hist: events, checks=[], depth=1, oracle="both", names="list")
 
 
 def tasks(tier):
-    return [{"part": "accept"}] + [{"part": "values", "col": n} for n, _, _ in COLSPEC]
+    return [{"part": "accept"}] + [{"part": "values", "col": n} for n, _, _ in COLSPEC] + [{"part": "const"}]
 
 
 def classify(v):
@@ -198,6 +231,14 @@ def classify(v):
 
     ty = v["world"]["tables"]["T"]["cols"][1][1]
     return "|".join([v["invariant"], v["backend"], f"{shape(ev[1][0][1])}[{ty}]".replace("cast(col)", "cast"), _target(ev), v["symptom"]])
+
+
+def classify_const(v):
+    ev = v["history"][-1]
+    from .c03 import shape
+
+    t = ev[1][0][1] if ev[0] == "mutate" else ev[1][0]
+    return "|".join([v["invariant"], v["backend"], ("constcol:" if len(v["history"]) > 2 else "literal:") + shape(t), T.py_expr(t)[-40:], v["symptom"]])
 
 
 def _target(ev):
@@ -213,6 +254,8 @@ def run_task(task, tier):
             merged.setdefault(v["class"], v)
         return {"stats": dict(stats), "outcomes": {k: v for k, v in stats.items() if k.startswith("outcome:")}, "levels": {},
                 "violations": list(merged.values()), "samples": [{"pairs": stats["states"]}]}
+    if task["part"] == "const":
+        return base.run_history_task(const_explorer, CONST_WORLD, [["source", "T"]], None, params={"part": "const"}, classify=classify_const)
     world = value_worlds()[task["col"]]
     events = [["mutate", [["y", term]]] for term in value_programs(tier)[task["col"]]]
     res = base.run_history_task(lambda w: make_explorer(w, events), world, [["source", "T"]], None,
@@ -226,6 +269,8 @@ def recheck(rec):
     if p.get("part") == "accept":
         _, vs = accept_part()
         return [v for v in vs if v["class"] == rec["class"]]
+    if p.get("part") == "const":
+        return base.recheck_history(const_explorer, rec)
     ev = rec["history"][-1]
     return base.recheck_history(lambda w: make_explorer(w, [ev]), rec)
 
